@@ -200,7 +200,19 @@ func (p *Prog) Named(pkg, name string) *types.Named {
 }
 
 // Field looks up a struct field object "Type.field" (nested path allowed: "Channel.mutable.state").
+// missingFields: field anchors a rule asked for that the loaded program does
+// not have (renamed or removed): reported by UnresolvedKeys.
+var missingFields = map[string]bool{}
+
 func (p *Prog) Field(pkg, typ string, path ...string) *types.Var {
+	v := p.field(pkg, typ, path...)
+	if v == nil {
+		missingFields["field "+typ+"."+strings.Join(path, ".")] = true
+	}
+	return v
+}
+
+func (p *Prog) field(pkg, typ string, path ...string) *types.Var {
 	n := p.Named(pkg, typ)
 	if n == nil {
 		return nil
